@@ -34,11 +34,10 @@ theorem joinDest_valid (D : Path) {a : Str} (h : isValid a = true) :
 
 theorem comps_root_of_eq {a : Str} (h : a = [slash]) : components a = [] := by subst h; rfl
 
-theorem ctx_of_inv {D : Path} {S : List Str → Prop} {fs : Fs} {n : RNode} (hI : Inv D S fs)
-    (hv : isValid n.apath = true) (hcl : ∀ pre, pre <+: comps n → ¬ S pre) :
-    Ctx fs D (comps n) (if n.apath = [slash] then [[]] else []) ∧ CleanFull fs D (comps n) := by
-  have hc := hI.cleanFull hcl
-  refine ⟨⟨hI.dest, (valid_eq_pathOf hv).1, ?_, ?_, hc.to⟩, hc⟩
+theorem ctx_of_cleanL {D : Path} {fs : Fs} {n : RNode} (hD : DestOk fs D)
+    (hv : isValid n.apath = true) (hc : CleanFullL fs D (comps n)) :
+    Ctx fs D (comps n) (if n.apath = [slash] then [[]] else []) := by
+  refine ⟨hD, (valid_eq_pathOf hv).1, ?_, ?_, hc.to⟩
   · intro c hc'
     by_cases hr : n.apath = [slash]
     · rw [if_pos hr] at hc'; simpa using hc'
@@ -47,24 +46,56 @@ theorem ctx_of_inv {D : Path} {S : List Str → Prop} {fs : Fs} {n : RNode} (hI 
     · exact Or.inr (comps_root_of_eq hr)
     · exact Or.inl (if_neg hr)
 
-/-- One turn of the loop. -/
-theorem restoreNodeFs_grows {uidOf gidOf : Str → Option Nat} {old : Bool} {D : Path}
-    {S : List Str → Prop} {fs : Fs} {n : RNode} (hI : Inv D S fs) (hv : isValid n.apath = true)
-    (hcl : ∀ pre, pre <+: comps n → ¬ S pre) :
+theorem ctx_of_inv {D : Path} {S : List Str → Prop} {fs : Fs} {n : RNode} (hI : Inv D S fs)
+    (hv : isValid n.apath = true) (hcl : ∀ pre, pre <+: comps n → ¬ S pre) :
+    Ctx fs D (comps n) (if n.apath = [slash] then [[]] else []) ∧ CleanFull fs D (comps n) :=
+  ⟨ctx_of_cleanL hI.dest hv (hI.cleanFull hcl).toL, hI.cleanFull hcl⟩
+
+/-- No symlink appears where there was nothing. -/
+def NoNewLink (fs fs' : Fs) : Prop :=
+  ∀ q x, fs.node q = none → fs'.node q = some x → x.kind ≠ .symlink
+
+theorem Local.noNewLink {k : FKind} {fs fs' : Fs} {p : Path} (h : Local k fs fs' p)
+    (hk : k ≠ .symlink) : NoNewLink fs fs' := by
+  intro q x hn hs
+  by_cases hq : q = p
+  · subst hq; rw [h.created x hn hs]; exact hk
+  · rw [(h.eqMod_of_ne hq).none_iff.1 hn] at hs; cases hs
+
+theorem Grows.noNewLink {D : Path} {T : List Str → Prop} {fs fs' : Fs}
+    (h : Grows D T (fun _ => False) fs fs') : NoNewLink fs fs' := by
+  intro q x hn hs
+  by_cases hq : D <+: q
+  · obtain ⟨cs, rfl⟩ := hq
+    rcases h.fresh cs x hn hs with hk | hf
+    · rw [hk]; decide
+    · exact hf.elim
+  · rw [h.outside q hq, hn] at hs; cases hs
+
+theorem NoNewLink.refl (fs : Fs) : NoNewLink fs fs := fun q x hn hs => by rw [hn] at hs; cases hs
+
+/-- One turn of the loop, from the weak hypothesis: no prefix of the entry's path (the path
+itself included) is a symlink in the file system. -/
+theorem restoreNodeFs_growsL {uidOf gidOf : Str → Option Nat} {old : Bool} {D : Path}
+    {fs : Fs} {n : RNode} (hD : DestOk fs D) (hv : isValid n.apath = true)
+    (hfull : CleanFullL fs D (comps n)) :
     Grows D (· <+: comps n) (fun c => c = comps n ∧ n.kind ≠ .dir) fs
       (restoreNodeFs uidOf gidOf old D fs n).1 ∧
-    ∀ d ∈ (restoreNodeFs uidOf gidOf old D fs n).2.2,
-      d.node = n ∧ n.kind = .dir ∧ d.path = joinDest D n.apath := by
-  obtain ⟨hctx, hfull⟩ := ctx_of_inv hI hv hcl
+    (∀ d ∈ (restoreNodeFs uidOf gidOf old D fs n).2.2,
+      d.node = n ∧ n.kind = .dir ∧ d.path = joinDest D n.apath) ∧
+    (n.kind ≠ .symlink → NoNewLink fs (restoreNodeFs uidOf gidOf old D fs n).1) := by
+  have hctx := ctx_of_cleanL hD hv hfull
   have hpath := joinDest_valid D hv
-  have hDn := hI.dest_ne_none
+  have hDn : fs.node D ≠ none := by
+    obtain ⟨x, hx, _⟩ := Fs.isDir_iff.1 (hD.dirs D (List.prefix_refl _))
+    rw [hx]; simp
   unfold restoreNodeFs
   cases hk : n.kind with
   | dir =>
     dsimp only
     by_cases hr : n.apath = [slash]
     · simp only [hr, ne_eq, not_true_eq_false, if_false]
-      refine ⟨Grows.refl _ _ _ _, fun d hd => ?_⟩
+      refine ⟨Grows.refl _ _ _ _, fun d hd => ?_, fun _ => NoNewLink.refl _⟩
       simp only [List.mem_singleton] at hd
       subst hd
       exact ⟨rfl, trivial, rfl⟩
@@ -72,31 +103,44 @@ theorem restoreNodeFs_grows {uidOf gidOf : Str → Option Nat} {old : Bool} {D :
       have hG : Grows D (· <+: comps n) (fun _ => False) fs
           (restoreDirFs fs (joinDest D n.apath)).1 := by
         rw [restoreDirFs_fst, hpath, if_neg hr, List.append_nil]
-        exact mkdirAll_grows _ fs (comps n) hI.dest hctx.good hfull
+        exact mkdirAll_grows _ fs (comps n) hD hctx.good hfull
       rcases hrd : restoreDirFs fs (joinDest D n.apath) with ⟨fs1, r⟩
       rw [hrd] at hG
       cases r with
-      | error e => exact ⟨hG.mono (fun _ h => h) (fun _ h => h.elim), fun d hd => by cases hd⟩
+      | error e =>
+        exact ⟨hG.mono (fun _ h => h) (fun _ h => h.elim), (fun d hd => by cases hd), fun _ => hG.noNewLink⟩
       | ok u =>
-        refine ⟨hG.mono (fun _ h => h) (fun _ h => h.elim), fun d hd => ?_⟩
+        refine ⟨hG.mono (fun _ h => h) (fun _ h => h.elim), fun d hd => ?_, fun _ => hG.noNewLink⟩
         simp only [List.mem_singleton] at hd
         subst hd
         exact ⟨rfl, trivial, rfl⟩
   | file =>
     dsimp only
-    refine ⟨?_, fun d hd => by cases hd⟩
     rw [hpath]
     have L := restoreFileFs_local (uidOf := uidOf) (gidOf := gidOf) (old := old) (n := n) hctx
       (hfull _ (List.prefix_refl _))
-    exact (L.grows hDn).mono (fun c h => h ▸ List.prefix_refl _) (fun c h => ⟨h.1, by decide⟩)
+    exact ⟨(L.grows hDn).mono (fun c h => h ▸ List.prefix_refl _) (fun c h => ⟨h.1, by decide⟩),
+      (fun d hd => by cases hd), fun _ => L.noNewLink (by decide)⟩
   | symlink =>
     dsimp only
-    refine ⟨?_, fun d hd => by cases hd⟩
     rw [hpath]
     have L := restoreSymlinkFs_local (uidOf := uidOf) (gidOf := gidOf) (n := n) hctx
-    exact (L.grows hDn).mono (fun c h => h ▸ List.prefix_refl _) (fun c h => ⟨h.1, by decide⟩)
+    exact ⟨(L.grows hDn).mono (fun c h => h ▸ List.prefix_refl _) (fun c h => ⟨h.1, by decide⟩),
+      (fun d hd => by cases hd), fun h => absurd rfl h⟩
   | unknown =>
-    exact ⟨Grows.refl _ _ _ _, fun d hd => by cases hd⟩
+    exact ⟨Grows.refl _ _ _ _, (fun d hd => by cases hd), fun _ => NoNewLink.refl _⟩
+
+/-- One turn of the loop (from the strong invariant). -/
+theorem restoreNodeFs_grows {uidOf gidOf : Str → Option Nat} {old : Bool} {D : Path}
+    {S : List Str → Prop} {fs : Fs} {n : RNode} (hI : Inv D S fs) (hv : isValid n.apath = true)
+    (hcl : ∀ pre, pre <+: comps n → ¬ S pre) :
+    Grows D (· <+: comps n) (fun c => c = comps n ∧ n.kind ≠ .dir) fs
+      (restoreNodeFs uidOf gidOf old D fs n).1 ∧
+    ∀ d ∈ (restoreNodeFs uidOf gidOf old D fs n).2.2,
+      d.node = n ∧ n.kind = .dir ∧ d.path = joinDest D n.apath :=
+  have h := restoreNodeFs_growsL (uidOf := uidOf) (gidOf := gidOf) (old := old) hI.dest hv
+    (hI.cleanFull hcl).toL
+  ⟨h.1, h.2.1⟩
 
 theorem Inv.mono {D : Path} {S S' : List Str → Prop} {fs : Fs} (h : Inv D S fs)
     (hS : ∀ c, S c → S' c) : Inv D S' fs :=
@@ -162,7 +206,7 @@ theorem applyDeferralsFs_inv {uidOf gidOf : Str → Option Nat} {D : Path} {S : 
     obtain ⟨hv, hp, hcl⟩ := hd d List.mem_cons_self
     obtain ⟨hctx, hfull⟩ := ctx_of_inv hI hv hcl
     have L := applyDeferralFs_local (uidOf := uidOf) (gidOf := gidOf) (n := d.node) hctx
-      (hfull _ (List.prefix_refl _))
+      (FinalNotLink.of_noneOrDir (hfull _ (List.prefix_refl _)))
     have hj : d.path = D ++ comps d.node ++ (if d.node.apath = [slash] then [[]] else []) := by
       rw [hp, joinDest_valid D hv]; rfl
     rw [← hj] at L
